@@ -8,7 +8,9 @@
    their characteristic bit mask m), for every branch factor and for the automatic choice, by
    complete enumeration (vm_compute over the finite domain, lifted with forallb_forall). *)
 From Coq Require Import ZArith List Bool Lia.
-From FV Require Import Lib.RustInt C14.SbsModel C14.SbsProofs C14.SbsSpec.
+From Coq Require Import Arith PeanoNat ZifyNat ZifyBool Sorting.Sorted.
+From FV Require Import Lib.RustInt C14.SbsModel C14.SbsProofs C14.SbsSpec C14.SbsEnc C14.SbsDecInv C14.SbsChain C14.SbsPack.
+Ltac Zify.zify_post_hook ::= Z.to_euclidean_division_equations.
 Import ListNotations.
 Open Scope Z_scope.
 
@@ -43,4 +45,153 @@ Proof.
   specialize (Hall m). rewrite forallb_forall in Hall. apply Hall.
   - apply zseq_in. lia.
   - unfold In; tauto.
+Qed.
+
+(* ------------------------------------------------------------------------------------------ *)
+(* the general round trip *)
+
+Lemma streamk_bound bf S0 top : bf_valid bf = true -> (1 <= top)%nat ->
+  (forall x, In x S0 -> x < bf ^ Z.of_nat top) ->
+  forall k, Forall (fun v => 0 <= v < 2 ^ bf) (streamk bf S0 top k).
+Proof.
+  intros Hbf Htop Hmax. pose proof (bf_ge2 bf Hbf) as Hb2.
+  assert (H2 : 0 < 2 ^ bf) by (apply Z.pow_pos_nonneg; lia).
+  induction k as [|k IH]; [constructor|].
+  rewrite (streamk_S bf S0 top Htop Hmax). apply Forall_app. split; [|assumption].
+  apply Forall_forall. intros v Hv. apply in_flat_map in Hv. destruct Hv as (p & _ & Hv).
+  unfold serL, serp in Hv. destruct (skipL bf S0 top k p); [contradiction|].
+  destruct (fillL bf S0 k p); destruct Hv as [<-|[]]; [lia | apply (bitsL_bound bf Hbf)].
+Qed.
+
+Lemma encode_fixed_decode bf S0 H : bf_valid bf = true -> vals_ok S0 -> 1 <= H <= max_height bf ->
+  (forall x, In x S0 -> x < bf ^ H) ->
+  exists bytes rs, encode_fixed bf S0 H = Some bytes /\ decode bytes 0 (U32 - 1) = Ok rs [] /\
+                   forall x, in_ranges x rs = zmem x S0.
+Proof.
+  intros Hbf Hok HH Hmax. pose proof (bf_ge2 bf Hbf) as Hb2.
+  assert (Hmh : max_height bf <= 31) by (destruct (bf_cases _ Hbf) as [-> | [-> | [-> | ->]]]; unfold max_height; cbn; lia).
+  set (top := Z.to_nat H). assert (Etop : Z.of_nat top = H) by (unfold top; lia).
+  assert (Htop : (1 <= top)%nat) by lia.
+  assert (Hmax' : forall x, In x S0 -> x < bf ^ Z.of_nat top) by (rewrite Etop; assumption).
+  unfold encode_fixed, obs_new. destruct (Z.ltb_spec 31 H); [lia|].
+  assert (Es : top = S (top - 1)) by lia.
+  destruct (layers_bfs bf Hbf S0 (top - 1) Hok) as (nds & El & Er). rewrite <- Es in El, Er.
+  fold top. rewrite El.
+  set (hdr := Z.lor (Z.shiftl (Z.land H 31) 2) (bit_id bf)).
+  destruct (pack_all bf (streamk bf S0 top top) [hdr] Hbf (streamk_bound bf S0 top Hbf Htop Hmax' top))
+    as (tree & pad & Ef & Ean & Elen).
+  assert (Ebytes : obs_into_bytes (emit bf (rev nds) ([hdr], 0)) = hdr :: tree).
+  { rewrite Er, emit_fold.
+    change (flat_map nodeval' (bfs bf S0 top top)) with (streamk bf S0 top top).
+    unfold obs_into_bytes. rewrite Ef, rev_app_distr, rev_involutive. reflexivity. }
+  destruct (decode_bfs bf Hbf S0 Hok top Htop ltac:(lia) Hmax' (repeat 0 pad)) as (out' & Ea & Hm).
+  exists (hdr :: tree), (rev out'). split; [rewrite Ebytes; reflexivity|]. split.
+  2:{ intros x. rewrite in_ranges_rev. apply Hm. }
+  unfold decode. destruct (header_roundtrip bf H Hbf ltac:(lia)) as (Eb & Eh). fold hdr in Eb, Eh.
+  rewrite Eb, Eh. destruct (Z.ltb_spec (max_height bf) H); [lia|].
+  unfold decode_nodes. destruct (Z.eqb_spec H 0); [lia|].
+  rewrite <- (st_of_index_0 bf).
+  pose proof (all_nodes_length bf tree Hbf) as HL.
+  rewrite dec_loop_aloop by (try assumption; cbn [length]; nia).
+  cbn [skipn]. rewrite Ean.
+  rewrite Etop in Ea. rewrite Ea. cbn [lift length].
+  change (Z.of_nat 0 mod U32) with 0.
+  destruct (skip_consumed bf (length (streamk bf S0 top top)) 0 Hbf ltac:(lia)) as (s2 & Esk & Ec).
+  { intros _. unfold U32. lia. }
+  rewrite Esk, Ec.
+  replace (Z.to_nat (((Z.of_nat (length (streamk bf S0 top top)) + 0) * bf + 7) / 8)) with (length tree)
+    by (rewrite Z.add_0_r, <- Elen; lia).
+  change (S (length tree)) with (length (hdr :: tree)).
+  rewrite Nat.leb_refl, skipn_all. reflexivity.
+Qed.
+
+Lemma last_max : forall (l : list Z), l <> [] -> StronglySorted Z.lt l ->
+  In (last l 0) l /\ forall x, In x l -> x <= last l 0.
+Proof.
+  induction l as [|a l IH]; intros Hne Hs; [contradiction|].
+  inversion Hs as [|? ? Hs' Ha]; subst. destruct l as [|b l'].
+  - cbn. split; [left; reflexivity|]. intros x [<-|[]]. lia.
+  - destruct (IH ltac:(discriminate) Hs') as (Hin & Hle). change (last (a :: b :: l') 0) with (last (b :: l') 0).
+    split; [right; assumption|]. intros x [<-|Hx]; [|apply Hle; assumption].
+    rewrite Forall_forall in Ha. specialize (Ha _ Hin). lia.
+Qed.
+
+Lemma decode_empty bf : bf_valid bf = true ->
+  decode [Z.lor (Z.shiftl (Z.land 0 31) 2) (bit_id bf)] 0 (U32 - 1) = Ok [] [].
+Proof. intros Hbf. destruct (bf_cases _ Hbf) as [-> | [-> | [-> | ->]]]; reflexivity. Qed.
+
+Theorem roundtrip bf S0 : bf_valid bf = true -> StronglySorted Z.lt S0 -> Forall (fun v => 0 <= v < U32) S0 ->
+  exists bytes rs, encode_bf bf S0 = Some bytes /\ decode bytes 0 (U32 - 1) = Ok rs [] /\
+                   forall x, in_ranges x rs = zmem x S0.
+Proof.
+  intros Hbf Hs Hb. destruct S0 as [|a l] eqn:ES.
+  - exists [Z.lor (Z.shiftl (Z.land 0 31) 2) (bit_id bf)], []. split; [reflexivity|]. split; [apply decode_empty; assumption | reflexivity].
+  - rewrite <- ES in *. assert (Hne : S0 <> []) by (rewrite ES; discriminate).
+    assert (Hok : vals_ok S0) by (split; [|split]; assumption).
+    destruct (last_max S0 Hne Hs) as (Hlin & Hlmax).
+    set (m := last S0 0) in *.
+    assert (Hm : 0 <= m < U32) by (rewrite Forall_forall in Hb; apply Hb; assumption).
+    assert (Eenc : encode_bf bf S0 =
+                   (let height := tree_height_for bf m in
+                    if max_height bf <? height then
+                      if bf =? 2 then let h4 := tree_height_for 4 m in
+                                      if max_height 4 <? h4 then None else encode_fixed 4 S0 h4
+                      else None
+                    else encode_fixed bf S0 height)).
+    { unfold encode_bf. rewrite ES. fold m. rewrite <- ES. reflexivity. }
+    rewrite Eenc. cbv zeta. clear Eenc.
+    destruct (tree_height_spec bf m Hbf Hm) as (T1 & T2 & _).
+    destruct (Z.ltb_spec (max_height bf) (tree_height_for bf m)) as [Hgt|Hle].
+    + destruct (tree_height_max bf m Hbf Hm) as [E2|Hc]; [|lia]. subst bf. cbn [Z.eqb Pos.eqb].
+      assert (Hbf4 : bf_valid 4 = true) by reflexivity.
+      destruct (tree_height_spec 4 m Hbf4 Hm) as (U1 & U2 & _).
+      destruct (tree_height_max 4 m Hbf4 Hm) as [E|Hc]; [discriminate|].
+      destruct (Z.ltb_spec (max_height 4) (tree_height_for 4 m)); [lia|].
+      apply encode_fixed_decode; try assumption; [lia|].
+      intros x Hx. specialize (Hlmax x Hx). lia.
+    + apply encode_fixed_decode; try assumption; [lia|].
+      intros x Hx. specialize (Hlmax x Hx). lia.
+Qed.
+
+Lemma min_by_len_in : forall l best, In (min_by_len best l) (best :: l).
+Proof.
+  induction l as [|c r IH]; intros best; cbn [min_by_len]; [left; reflexivity|].
+  destruct (length c <? length best)%nat.
+  - destruct (IH c) as [E|Hin]; [right; left; assumption | right; right; assumption].
+  - destruct (IH best) as [E|Hin]; [left; assumption | right; right; assumption].
+Qed.
+
+Theorem roundtrip_auto S0 : StronglySorted Z.lt S0 -> Forall (fun v => 0 <= v < U32) S0 ->
+  exists bytes rs, encode_auto S0 = Some bytes /\ decode bytes 0 (U32 - 1) = Ok rs [] /\
+                   forall x, in_ranges x rs = zmem x S0.
+Proof.
+  intros Hs Hb. destruct S0 as [|a l] eqn:ES.
+  - exists [0], []. repeat split.
+  - rewrite <- ES in *.
+    assert (Eauto : encode_auto S0 =
+      (let maxv := last S0 0 in
+       let cands := flat_map (fun bf => if tree_height_for bf maxv <=? max_height bf then [encode_bf bf S0] else []) [2; 4; 8; 32] in
+       match sequence_opt cands with
+       | None => None | Some [] => None | Some (c :: r) => Some (min_by_len c r) end)).
+    { unfold encode_auto. rewrite ES. reflexivity. }
+    rewrite Eauto. cbv zeta. clear Eauto. set (m := last S0 0).
+    assert (Hne : S0 <> []) by (rewrite ES; discriminate).
+    destruct (last_max S0 Hne Hs) as (Hlin & _). fold m in Hlin.
+    assert (Hm : 0 <= m < U32) by (rewrite Forall_forall in Hb; apply Hb; assumption).
+    (* every candidate is a round-tripping encoding *)
+    set (good := fun bytes : list Z => exists rs, decode bytes 0 (U32 - 1) = Ok rs [] /\ forall x, in_ranges x rs = zmem x S0).
+    assert (Hc : forall bf, bf_valid bf = true -> exists bytes, encode_bf bf S0 = Some bytes /\ good bytes).
+    { intros bf Hbf. destruct (roundtrip bf S0 Hbf Hs Hb) as (bytes & rs & E1 & E2 & E3). exists bytes. split; [assumption|]. exists rs. split; assumption. }
+    destruct (Hc 2 eq_refl) as (b2 & E2 & G2). destruct (Hc 4 eq_refl) as (b4 & E4 & G4).
+    destruct (Hc 8 eq_refl) as (b8 & E8 & G8). destruct (Hc 32 eq_refl) as (b32 & E32 & G32).
+    destruct (tree_height_max 4 m eq_refl Hm) as [E|H4]; [discriminate|].
+    cbn [flat_map]. rewrite E2, E4, E8, E32.
+    destruct (Z.leb_spec (tree_height_for 4 m) (max_height 4)); [|lia].
+    destruct (tree_height_for 2 m <=? max_height 2); destruct (tree_height_for 8 m <=? max_height 8);
+      destruct (tree_height_for 32 m <=? max_height 32); cbn [app sequence_opt];
+      match goal with |- exists bytes rs, Some (min_by_len ?c ?r) = Some bytes /\ _ =>
+        pose proof (min_by_len_in r c) as Hin;
+        assert (Hg : Forall good (c :: r)) by (repeat constructor; assumption);
+        rewrite Forall_forall in Hg; destruct (Hg _ Hin) as (rs & D1 & D2);
+        exists (min_by_len c r), rs; repeat split; assumption end.
 Qed.
